@@ -42,6 +42,7 @@ type Gen struct {
 	keys    []VSpec
 
 	detachedOnce map[int]bool
+	templates    [][]VSpec // "record" templates: composite-typed child maps sharing one key set (compact encoding)
 }
 
 func NewGen(r *Rng, w *World, p *Profile) *Gen {
@@ -53,6 +54,14 @@ func NewGen(r *Rng, w *World, p *Profile) *Gen {
 	kr := r.Sub("keys")
 	for i := 0; i < n; i++ {
 		g.keys = append(g.keys, g.genKey(kr, i))
+	}
+	tr := r.Sub("templates")
+	for t := 0; t < 4; t++ {
+		var ks []VSpec
+		for j := 0; j < 1+tr.Intn(5); j++ {
+			ks = append(ks, VSpec{S: &[2]int{5000 + t*10 + j, tr.Range(2, 12)}})
+		}
+		g.templates = append(g.templates, ks)
 	}
 	return g
 }
@@ -176,6 +185,20 @@ func (g *Gen) genChild(depth, limit int) VSpec {
 	n := g.R.Intn(g.P.ChildInit + 1)
 	cs := &CSpec{CID: g.cid(), T: g.genType()}
 	isMap := g.R.Chance(g.P.MapShare)
+	if isMap && cs.T.Comp && g.R.Chance(0.7) {
+		// a record: composite type with the template's full key set and small values, so that
+		// sibling records share the compact encoding
+		t := int(cs.T.N) % len(g.templates)
+		for _, k := range g.templates[t] {
+			v := g.genScalar(24)
+			if v.S != nil && v.S[1] > 24 {
+				v.S[1] = g.R.Range(1, 24)
+			}
+			cs.K = append(cs.K, k)
+			cs.V = append(cs.V, v)
+		}
+		return VSpec{Map: cs}
+	}
 	childLimit := int(atree.MaxInlineArrayElementSize())
 	if isMap {
 		childLimit = int(atree.MaxInlineMapElementSize()) / 2
@@ -325,6 +348,9 @@ func (g *Gen) Next() Step {
 			var k VSpec
 			if n > 0 && r.Chance(presentBias) {
 				k = specOfKey(c.Keys[r.Intn(n)])
+			} else if c.Type.Comp && c.Parent != nil && r.Chance(0.6) {
+				t := g.templates[int(c.Type.N)%len(g.templates)]
+				k = t[r.Intn(len(t))]
 			} else {
 				k = g.keys[r.Intn(len(g.keys))]
 			}
